@@ -90,9 +90,16 @@ mod native {
                         if single && n != 1 { continue; }
                         let base = fresh_dir("c03");
                         let content: Vec<u8> = (0..total).map(|i| (i * 7 + 3) as u8).collect();
-                        let files: Vec<(String, usize)> = ls.iter().enumerate().map(|(i, l)| (format!("f{}.bin", i), *l)).collect();
+                        // listed in REVERSE path order (z2, z1, z0): the offsets follow the listing, not the names
+                        let files: Vec<(String, usize)> = ls.iter().enumerate().map(|(i, l)| (format!("z{}.bin", n - 1 - i), *l)).collect();
                         let m = Metainfo::from_bencode(&torrent_doc("t", pl, &content, &files, single)).expect("test torrent");
                         store_pieces(pl, &content);
+                        // leftovers of an earlier run, longer than anything extracted now, sit at the output paths
+                        if n > 1 { std::fs::create_dir_all("t").unwrap(); }
+                        for (p, _) in files.iter() {
+                            let path = if n > 1 { std::path::PathBuf::from("t").join(p) } else if single { std::path::PathBuf::from("t") } else { std::path::PathBuf::from(p) };
+                            std::fs::write(&path, vec![0xEEu8; 40]).unwrap();
+                        }
                         let ex = Extractor::new(m, tx.clone());
                         ex.extract_files().unwrap_or_else(|e| panic!("extraction failed for piece length {} file lengths {:?} single {}: {}", pl, ls, single, e));
                         let mut off = 0;
@@ -127,22 +134,35 @@ mod native {
                 for p in paths.iter() {
                     let base = fresh_dir("c04");
                     let content = vec![1u8, 2, 3, 4, 5, 6];
-                    let files: Vec<(String, usize)> = if multi { vec![(p.clone(), 4), ("z".into(), 2)] } else { vec![(p.clone(), 6)] };
+                  for hostile_len in [4usize, 0] {
+                    // the hostile entry carries data (4 bytes) or is EMPTY (nothing to copy, but the file is still created)
+                    let files: Vec<(String, usize)> = if multi { vec![("a0".into(), 4 - hostile_len), (p.clone(), hostile_len), ("z".into(), 2)] } else { vec![(p.clone(), 6)] };
                     let doc = torrent_doc(name, 4, &content, &files, false);
+                    let mut parsed = false;
                     if let Ok(m) = Metainfo::from_bencode(&doc) {
+                        parsed = true;
                         store_pieces(4, &content);
                         let _ = Extractor::new(m, tx.clone()).extract_files();
                     }
                     std::env::set_current_dir("/").unwrap();
                     let mut out = vec![];
                     files_outside(&base, &base.join("work/dl"), &mut out);
-                    assert!(out.is_empty(), "torrent name {:?} path {:?} (multi {}): created outside the download directory: {:?}", name, p, multi, out);
+                    assert!(out.is_empty(), "torrent name {:?} path {:?} (multi {}, {} bytes): created outside the download directory: {:?}", name, p, multi, hostile_len, out);
+                    // a multi-file torrent with an ordinary name keeps everything inside the sub-directory of that name
+                    if parsed && multi && name == "t" {
+                        for e in std::fs::read_dir(base.join("work/dl")).unwrap() {
+                            let e = e.unwrap().path();
+                            let fname = e.file_name().unwrap().to_string_lossy().to_string();
+                            assert!(fname == "t" || fname.ends_with(".piece"), "torrent \"t\" path {:?} ({} bytes): {:?} created outside the torrent's sub-directory", p, hostile_len, fname);
+                        }
+                    }
+                  }
                     assert!(!std::path::Path::new("/verif/.cache/native-tmp/abs_name").exists(), "absolute torrent name followed");
                     let _ = std::fs::remove_dir_all(&base);
                     cases += 1;
                 }
             }
         }
-        assert!(cases == 72);
+        assert!(cases == 72);   // x 2 lengths of the hostile entry each
     }
 }
